@@ -562,13 +562,15 @@ pub fn free_run_report(order: usize) -> String {
     if order % 2 == 1 {
         idx.reverse();
     }
-    let mut lines: Vec<(usize, String)> = vec![];
-    for i in idx {
+    // several calls per input, on several threads, each with its own RandomState keys; odd orders walk the corpus
+    // sequentially (process state evolves in a known order), even orders let calls on DIFFERENT inputs overlap in time
+    // (a shared scratch buffer or cache would be raced over)
+    let one = |i: usize| -> (usize, String) {
         let src = &c[i].1;
-        // several calls, on several threads, each with its own RandomState keys
         let obs: Vec<String> = (0..3).into_par_iter().map(|_| crate::sha256::hex(observe(src).as_bytes())).collect();
-        lines.push((i, obs.join(" ")));
-    }
+        (i, obs.join(" "))
+    };
+    let mut lines: Vec<(usize, String)> = if order % 2 == 1 { idx.iter().map(|i| one(*i)).collect() } else { idx.par_iter().map(|i| one(*i)).collect() };
     lines.sort();
     lines.into_iter().map(|(i, l)| format!("{i} {l}\n")).collect()
 }
